@@ -44,7 +44,7 @@ OFFSETS = ["zero", "zero", "ulp", "ulp", "log", "log", "log", "subnormal", "far"
 
 
 def budget(tier):
-    return {"examples": 8000 if tier == "quick" else 300000, "fuzz_runs": 0 if tier == "quick" else 60000}
+    return {"examples": 8000 if tier == "quick" else 300000, "fuzz_runs": 0 if tier == "quick" else 60000, "shrink": False}  # (run_case already returns the single failing observer row; Hypothesis shrinking costs minutes per finding here)
 
 
 @st.composite
